@@ -87,6 +87,7 @@ pub fn check_var(layout: &StorageLayout, var: &Var, mode: Mode) -> Result<(), (S
         Kind::AddressWord => "address-word".to_string(),
         Kind::Mapping(k, av) => format!("mapping-depth{}{}", k.len(), if *av { "-addrvalue" } else { "" }),
         Kind::DynArray => "dynarray".to_string(),
+        Kind::DynArrayFolded => "dynarray-prefolded".to_string(),
         Kind::Packed(f) => format!("packed{}", f.len()),
     };
     let mode_name = format!("{mode:?}").to_lowercase();
@@ -146,7 +147,7 @@ pub fn check_var(layout: &StorageLayout, var: &Var, mode: Mode) -> Result<(), (S
             }
             Ok(())
         }
-        Kind::DynArray => {
+        Kind::DynArray | Kind::DynArrayFolded => {
             if entries.iter().any(|e| e.offset == 0 && matches!(e.typ, AbiType::DynArray { .. })) {
                 Ok(())
             } else {
@@ -228,6 +229,7 @@ fn kind_json(k: &Kind) -> Value {
         Kind::Word => json!("word"),
         Kind::AddressWord => json!("address_word"),
         Kind::DynArray => json!("dyn_array"),
+        Kind::DynArrayFolded => json!("dyn_array_prefolded"),
         Kind::Mapping(keys, av) => json!({"mapping": keys.iter().map(|k| format!("{k:?}")).collect::<Vec<_>>(), "address_value": av}),
         Kind::Packed(f) => json!({"packed": f}),
     }
@@ -253,6 +255,8 @@ pub fn case_from_json(v: &Value) -> Case {
                 Kind::AddressWord
             } else if k == "dyn_array" {
                 Kind::DynArray
+            } else if k == "dyn_array_prefolded" {
+                Kind::DynArrayFolded
             } else if let Some(m) = k.get("mapping") {
                 Kind::Mapping(
                     m.as_array()
@@ -289,7 +293,10 @@ enum Chunk {
     Splits(usize, usize), // number of fields, slice
     Pairs(usize, usize),  // representative kinds a, b
     Triples(usize, usize),
+    Folded(usize), // slice of the 10000 slots whose hash the tool recognises when pre-folded
 }
+
+const FOLDED_SLICES: usize = 16;
 
 const SPLIT_SLICES: usize = 64;
 
@@ -304,6 +311,9 @@ fn plan(tier: Tier) -> Vec<Chunk> {
         for s in 0..slices {
             v.push(Chunk::Splits(n, s));
         }
+    }
+    for s in 0..FOLDED_SLICES {
+        v.push(Chunk::Folded(s));
     }
     let r = representative_kinds().len();
     for a in 0..r {
@@ -409,6 +419,62 @@ impl Check for C04 {
                     }
                 }
             }
+            Chunk::Folded(slice) => {
+                for n in (slice as u64..10_000).step_by(FOLDED_SLICES) {
+                    for mode in [Mode::Read, Mode::Write] {
+                        // spellings 0 and 1 differ in the side of ADD the constant is on
+                        for sp in 0..2 {
+                            run(
+                                ctx,
+                                "prefolded_array_hashes",
+                                &Case {
+                                    vars: vec![(
+                                        Var {
+                                            slot: U::from_u64(n),
+                                            kind: Kind::DynArrayFolded,
+                                        },
+                                        mode,
+                                    )],
+                                    spelling: sp,
+                                },
+                            );
+                        }
+                    }
+                }
+                // next to another variable: the neighbours of a few slots, both kinds of array side by side
+                for n in [0u64, 1, 480, 9_999] {
+                    for other in [Kind::DynArray, Kind::Mapping(vec![KeyKind::Address], false), Kind::Packed(vec![(0, 8), (8, 24)])] {
+                        if n as usize % FOLDED_SLICES != slice {
+                            continue;
+                        }
+                        for sp in 0..SPELLINGS.len() {
+                            run(
+                                ctx,
+                                "prefolded_array_hashes",
+                                &Case {
+                                    vars: vec![
+                                        (
+                                            Var {
+                                                slot: U::from_u64(n),
+                                                kind: Kind::DynArrayFolded,
+                                            },
+                                            Mode::Both,
+                                        ),
+                                        (
+                                            Var {
+                                                slot: U::from_u64(n + 1),
+                                                kind: other.clone(),
+                                            },
+                                            Mode::Both,
+                                        ),
+                                    ],
+                                    spelling: sp,
+                                },
+                            );
+                        }
+                    }
+                }
+            }
             Chunk::Pairs(a, b) => {
                 let ks = representative_kinds();
                 let sl = slots();
@@ -503,7 +569,9 @@ impl Check for C04 {
              plain or 160-bit-masked value, at 6 slots (0, 1, 5, 77, 2^64+3, 2^200) x 3 access modes (read, write, both; each access \
              in its own dispatcher branch; packed words additionally with one store that writes all fields at once, ORs \
              associated either way) x 4 spellings (mul/shl packing, shr/div unpacking, mask on either side of AND, hash on \
-             either side of ADD); all {} splits of a 32-byte word into 2..{} fields at byte boundaries as packed variables; all ordered \
+             either side of ADD); all {} splits of a 32-byte word into 2..{} fields at byte boundaries as packed variables; dynamic arrays whose keccak(slot) is \
+             pre-folded into a PUSH constant at EVERY slot 0..9999 (the range the tool documents) x read / write x constant on either \
+             side of ADD; all ordered \
              pairs{} of 7 representative kinds at all ordered slot pairs x 9 mode pairs x 4 spellings. Oracle: an entry at exactly the \
              slot whose kind matches (mapping nested to the right depth, dynamic array, packed fields at the right bit offsets with \
              the right widths, 20-byte quantity for 160-bit-masked words / keys / values). non-trivial = every generated program; \
